@@ -56,6 +56,9 @@
      C03_sort_local: Element::sort(h) changes only nodes reachable from h.  C03_stale_live2 / _histories2: the same
        "cannot change the live model" for requests of op2 through a handle (principal2: Op1 requests, Element::sort,
        Element::serialize), in every Core world and along every op2 history outside Known_load_shared.
+     C03_stale_chain: the per-handle form of C03_stale: the four min_version-only requests fail through a detached
+       handle h as soon as the file sets on h's own chain are empty (ChainFiles w h; implied by DetFiles): this is the
+       one fact about detached elements that is not yet carried across OpLoad.
    HEADLINE: C03_histories2_headline — the property text as one statement over op2 histories from the empty world
      outside Known_load_shared: Core (well-formed tree), sub_elements / parent / position agree, elements_dfs = the
      reachable elements once each in pre-order, the sub-element iterator = the content list, stale handles cannot
@@ -736,6 +739,17 @@ Theorem C03_histories2_navigation :
        (forall r w', q_path T h w = Val (r, w') -> w' = w /\ failed r) /\
        (forall r w', parent_in w h = PNone -> q_parent h w = Val (r, w') -> w' = w /\ r = ER ItemDeleted)).
 Proof. exact navigation_histories2. Qed.
+
+Theorem C03_stale_chain :
+  forall (T : tables) (tab_el tab_en : nametab) (check_fn : N -> list N -> res bool) (LATEST : N)
+         (root_attrs : list (N * cdata)) (o : op) (h : id) (w : world) (r : out value) (w' : world),
+    (needs_version_only o = true -> ChainFiles w h) ->
+    Detached w h -> principal o = Some h -> place_dependent o = true ->
+    Inv.run T tab_el tab_en check_fn LATEST root_attrs o w = Val (r, w') -> w' = w /\ failed r.
+Proof. exact stale_fails_chain. Qed.
+
+Theorem C03_chainfiles_of : forall (w : world) (h : id), DetFiles w -> Detached w h -> ChainFiles w h.
+Proof. exact DetFiles_ChainFiles. Qed.
 
 (* ---------- the finding: an error after the point of no return leaves an orphan ---------- *)
 Theorem C03_failed_reparent_refuted :
